@@ -8,7 +8,7 @@
 From Coq Require Import List Arith Bool NArith.
 From FFSM2 Require Import Model.TaskList Model.BitArray Model.BitStream Model.Plan Model.Ancestors Model.Machine
   Proofs.BitArrayProofs Proofs.TaskListProofs Proofs.TaskListRun Proofs.PlanProofs Proofs.MachineFrame Proofs.MachinePlan Proofs.MachineLife Proofs.GuardProofs Proofs.CycleProofs Proofs.PlanStep
-  Proofs.SerialProofs Proofs.LogProofs Proofs.MachineTop Model.Multi Generated.InitFacts Proofs.ConstructProofs Proofs.LifeMonitor Proofs.ActivationRounds Proofs.IndexSafety Proofs.FeatureProofs Model.Script Proofs.Contract Proofs.Histories Proofs.StatusBits Proofs.Worlds Model.Cxx Generated.LeafCode Proofs.LeafTactics Proofs.LeafConsts Proofs.LeafCodeTaskList.
+  Proofs.SerialProofs Proofs.LogProofs Proofs.MachineTop Model.Multi Generated.InitFacts Proofs.ConstructProofs Proofs.LifeMonitor Proofs.ActivationRounds Proofs.IndexSafety Proofs.FeatureProofs Model.Script Proofs.Contract Proofs.Histories Proofs.StatusBits Proofs.Worlds Model.Cxx Generated.LeafCode Proofs.LeafTactics Proofs.LeafConsts Proofs.LeafCodeTaskList Proofs.LeafCodeStream Proofs.LeafCodeWide.
 Import ListNotations.
 
 (* every history of plan edits, any length: returned values (append succeeded / refused, the tasks an iterating removal
@@ -240,15 +240,15 @@ Print Assumptions C10_tasklist_no_leak.
    in the interpreter of Model/Cxx.v on any list satisfying the invariant FL - hence on every list any operation
    sequence reaches - stays inside the array and computes exactly the model's emplace, for every capacity up to 255 *)
 Theorem C10_source_emplace_is_the_model :
-  forall (P : Type) (cap : nat) (t : tl P) (vac : list nat) (occ : list (nat * slot P)) (o d : nat),
+  forall (P : Type) (cap : nat) (t : tl P) (vac : list nat) (occ : list (nat * slot P)) 
+           (o d : nat) (p : option P),
          FL P cap t vac occ ->
          o <= 255 ->
          d <= 255 ->
          result
            (run leaf_ftable (tl_consts cap) TaskListT_void_5__emplace_u8_u8
               [BinInt.Z.of_nat o; BinInt.Z.of_nat d] (tl_fields t) (tl_arrays t)) =
-         (let
-          '(t', r) := emplace P cap t o d None in Some (Some (BinInt.Z.of_nat r), tl_fields t', tl_arrays t')).
+         (let '(t', r) := emplace P cap t o d p in Some (Some (BinInt.Z.of_nat r), tl_fields t', tl_arrays t')).
 Proof. exact (src_TaskList_emplace_FL). Qed.
 Print Assumptions C10_source_emplace_is_the_model.
 
@@ -275,4 +275,17 @@ Theorem C10_source_clear_is_the_model :
          Some (None, tl_fields (tl_clear P t), tl_arrays (tl_clear P t)).
 Proof. exact (src_TaskList_clear). Qed.
 Print Assumptions C10_source_clear_is_the_model.
+
+(* over whole histories: any in-contract sequence of emplace / remove / clear from a freshly constructed list, executed
+   by running the translated member functions one after the other on the object (src_run; None would be a fault), never
+   faults and yields, object for object, the model's run - to which the invariant (tl_run_FL) and the no-leak / exact-
+   capacity theorem (emplace_all_spec) above apply *)
+Theorem C10_source_every_history :
+  forall (P : Type) (cap : nat) (ops : list (tl_op P)),
+         1 <= cap <= 255 ->
+         tl_ops_ok P cap ops (tl_init P cap) ->
+         Forall (ids_ok P) ops ->
+         src_run P cap (obj_of P (tl_init P cap)) ops = Some (obj_of P (tl_run P cap ops (tl_init P cap))).
+Proof. exact (src_TaskList_every_history). Qed.
+Print Assumptions C10_source_every_history.
 
